@@ -94,6 +94,12 @@ func (s *Store) kvsDeleteTreeTxn(tx WriteTxn, idx uint64, prefix string, entMeta
 			if err := s.kvsGraveyard.InsertTxn(tx, prefix, idx, entMeta); err != nil {
 				return fmt.Errorf("failed adding to graveyard: %s", err)
 			}
+		} else {
+			// Older tombstones would otherwise keep answering prefix listings
+			// with their own (lower) index instead of the max index of the tree.
+			if _, err := tx.DeleteAll(tableTombstones, indexID); err != nil {
+				return fmt.Errorf("failed clearing graveyard: %s", err)
+			}
 		}
 
 		if err := tx.Insert(tableIndex, &IndexEntry{"kvs", idx}); err != nil {
